@@ -24,7 +24,10 @@ type persistObj struct {
 	encLine  func(raw []byte, cnt int64) (string, error)
 	equalsTo func(t persistTarget) (bool, error)
 	queries  func() string // canonical answers to a fixed set of queries
+	rawObj   interface{}   // the library object itself
 }
+
+func (o persistObj) raw() interface{} { return o.rawObj }
 
 type persistTarget struct {
 	readFrom func(r io.Reader) (int64, error)
@@ -158,7 +161,7 @@ func persistCMSDims(c *Ctx, rows, cols uint) persistObj {
 		return persistTarget{readFrom: g.ReadFrom, imp: g.Import, export: g.Export, queries: q(g), raw: g}
 	}
 	return persistObj{
-		kind: "cms", writeTo: s.WriteTo, export: s.Export, fresh: mkTarget, queries: q(s),
+		kind: "cms", writeTo: s.WriteTo, export: s.Export, fresh: mkTarget, queries: q(s), rawObj: s,
 		encLine: func(raw []byte, cnt int64) (string, error) {
 			d, err := parseCMS(s.Export())
 			if err != nil {
@@ -171,7 +174,13 @@ func persistCMSDims(c *Ctx, rows, cols uint) persistObj {
 }
 
 func persistHLL(c *Ctx) persistObj {
-	m := []uint64{128, 128, 256, 512}[c.rng.Intn(4)]
+	return persistHLLSize(c, []uint64{128, 128, 256, 512}[c.rng.Intn(4)])
+}
+
+// more registers than any cap an implementation might put on what it allocates from a header (2^16)
+func persistHLLBig(c *Ctx) persistObj { return persistHLLSize(c, 1<<17) }
+
+func persistHLLSize(c *Ctx, m uint64) persistObj {
 	h, _ := gostatix.NewHyperLogLog(m)
 	pool := elemPool(c.rng, 12, false)
 	for i := 0; i < c.rng.Intn(12); i++ {
@@ -188,7 +197,7 @@ func persistHLL(c *Ctx) persistObj {
 		return persistTarget{readFrom: g.ReadFrom, imp: g.Import, export: g.Export, queries: q(g), raw: g}
 	}
 	return persistObj{
-		kind: "hll", writeTo: h.WriteTo, export: h.Export, fresh: mkTarget, queries: q(h),
+		kind: "hll", writeTo: h.WriteTo, export: h.Export, fresh: mkTarget, queries: q(h), rawObj: h,
 		encLine: func(raw []byte, cnt int64) (string, error) {
 			d, err := parseHLL(h.Export())
 			if err != nil {
@@ -283,6 +292,9 @@ func persistTopKHuge(c *Ctx) persistObj {
 
 func persistTopKWith(c *Ctx, last []byte) persistObj {
 	k := []uint{1, 2, 3, 5}[c.rng.Intn(4)]
+	if last == nil && c.rng.Intn(10) == 0 {
+		k = []uint{math.MaxUint64, math.MaxInt64 + 1, 1 << 40}[c.rng.Intn(3)] // "unbounded" top-k: k is only a number
+	}
 	er := []float64{3, 1, 0.5}[c.rng.Intn(3)]
 	acc := []float64{0.5, 0.2}[c.rng.Intn(2)]
 	t := gostatix.NewTopK(k, er, acc)
@@ -360,6 +372,7 @@ func suitePersist(c *Ctx) {
 	}
 	for i := 0; i < c.scale(1, 4); i++ {
 		persistCase(c, persistCMSWide(c), nil)
+		persistCase(c, persistHLLBig(c), nil)
 		b := persistBloom(c)
 		persistCase(c, persistTopKHuge(c), &b)
 	}
@@ -430,6 +443,8 @@ func persistCase(c *Ctx, o persistObj, second *persistObj) {
 	if ok, err := o.equalsTo(t); !ok {
 		c.fail(append(props, "C17"), o.kind+"-roundtrip-equals", fmt.Sprintf("%s: reconstructed structure not Equal to the original (%v)", o.kind, err), replay)
 	}
+	// a restored sketch is as good a Merge argument as the one that was written
+	persistMergeRestored(c, o, t, replay)
 	// back to back with a second structure in one stream
 	if second != nil {
 		var b2 bytes.Buffer
@@ -547,4 +562,43 @@ func wrapReader(r io.Reader, kind int, seed int64) io.Reader {
 		return &chunkReader{r: r, rng: rand.New(rand.NewSource(seed)), max: 7}
 	}
 	return r
+}
+
+// persistMergeRestored: a structure restored by ReadFrom, used as the SOURCE of a Merge before
+// anything else touches it, contributes exactly what the written structure would contribute
+func persistMergeRestored(c *Ctx, o persistObj, t persistTarget, replay interface{}) {
+	switch orig := o.raw().(type) {
+	case *gostatix.CountMinSketch:
+		rest, ok := t.raw.(*gostatix.CountMinSketch)
+		if !ok || rest.GetRows() != orig.GetRows() || rest.GetColumns() != orig.GetColumns() {
+			return
+		}
+		a, _ := gostatix.NewCountMinSketch(orig.GetRows(), orig.GetColumns())
+		b, _ := gostatix.NewCountMinSketch(orig.GetRows(), orig.GetColumns())
+		a.Update([]byte("base"), 3)
+		b.Update([]byte("base"), 3)
+		e1, e2 := a.Merge(orig), b.Merge(rest)
+		da, _ := a.Export()
+		db, _ := b.Export()
+		c.op("Merge.restored-cms")
+		if (e1 == nil) != (e2 == nil) || string(da) != string(db) {
+			c.fail([]string{"C11", "C12"}, "cms-restored-merge-differs", fmt.Sprintf("cms: merging a sketch restored by ReadFrom gives another result than merging the sketch that was written (%v / %v)", e1, e2), replay)
+		}
+	case *gostatix.HyperLogLog:
+		rest, ok := t.raw.(*gostatix.HyperLogLog)
+		if !ok || rest.NumRegisters() != orig.NumRegisters() {
+			return
+		}
+		a, _ := gostatix.NewHyperLogLog(orig.NumRegisters())
+		b, _ := gostatix.NewHyperLogLog(orig.NumRegisters())
+		a.Update([]byte("base"))
+		b.Update([]byte("base"))
+		e1, e2 := a.Merge(orig), b.Merge(rest)
+		da, _ := a.Export()
+		db, _ := b.Export()
+		c.op("Merge.restored-hll")
+		if (e1 == nil) != (e2 == nil) || string(da) != string(db) {
+			c.fail([]string{"C11", "C06"}, "hll-restored-merge-differs", fmt.Sprintf("hll: merging a sketch restored by ReadFrom gives another result than merging the sketch that was written (%v / %v)", e1, e2), replay)
+		}
+	}
 }
